@@ -11,6 +11,9 @@
      Commit(l)      jobProvider.commit: job.offsets[stream] := offset   (sync persistence: saved in the same step)
      SaveAsync      the periodic save writes job.offsets to the offsets file (C07 makes that atomic)
      Kill           kill -9 at ANY instant: everything in memory is lost, the offsets file stays
+     Stop           graceful shutdown (Pipeline.Stop -> Plugin.Stop -> jobProvider.stop): the input writes job.offsets
+                    to the offsets file once more and the process ends; what was not committed by then is not saved.
+                    (A send that completes and commits during the shutdown is a Deliver/Commit before this step.)
      Restart        load the offsets file; job.offsets := saved; seek to the MINIMUM of the SAVED stream offsets
                     (no saved offsets for the file: start from 0)
      Append / Rotate  lines are appended, and the file is rotated by rename, at any time -- also while down
@@ -30,7 +33,9 @@ CONSTANTS NLines, Streams, SyncMode,
           M_SeekMin,          \* FALSE: seek to the maximum saved offset
           M_CommitAfterAck,   \* FALSE: the offset is committed when the line is read, not when it was acknowledged
           M_SkipOnlyOwnStream,\* FALSE: PassEvent compares with the largest saved offset of ANY stream
-          M_SkipStrict        \* FALSE: PassEvent also refuses the first line after the saved offset (off-by-one)
+          M_SkipStrict,       \* FALSE: PassEvent also refuses the first line after the saved offset (off-by-one)
+          GracefulStop,       \* TRUE: the first run may also end by a graceful stop
+          M_StopSaves         \* FALSE: the graceful stop does not write the offsets (async persistence loses the last interval)
 
 Lines == 1..NLines
 
@@ -44,10 +49,11 @@ VARIABLES strm,       \* [Lines -> Streams]
           delivered,  \* [Lines -> Nat]  durable downstream deliveries, both runs
           lowWater,   \* repaired rule only: first line not yet known delivered (persisted with the offsets)
           diskLow,
+          ended,      \* how the first run ended: "no" | "kill" | "stop"
           hist        \* history of externally visible steps, for replay
 
-vars == <<strm, written, up, run, pos, st, joff, disk, delivered, lowWater, diskLow, hist>>
-view == <<strm, written, up, run, pos, st, joff, disk, delivered, lowWater, diskLow>>
+vars == <<strm, written, up, run, pos, st, joff, disk, delivered, lowWater, diskLow, ended, hist>>
+view == <<strm, written, up, run, pos, st, joff, disk, delivered, lowWater, diskLow, ended>>
 
 Init == /\ strm \in [Lines -> Streams]
         /\ written = 0 /\ up = TRUE /\ run = 1 /\ pos = 0
@@ -55,12 +61,12 @@ Init == /\ strm \in [Lines -> Streams]
         /\ joff = [s \in Streams |-> 0] /\ disk = [s \in Streams |-> 0]
         /\ delivered = [l \in Lines |-> 0]
         /\ lowWater = 0 /\ diskLow = 0
-        /\ hist = <<>>
+        /\ ended = "no" /\ hist = <<>>
 
 H(x) == hist' = Append(hist, x)
 
 Append1 == /\ written < NLines /\ written' = written + 1 /\ H(<<"append", written + 1>>)
-           /\ UNCHANGED <<strm, up, run, pos, st, joff, disk, delivered, lowWater, diskLow>>
+           /\ UNCHANGED <<strm, up, run, pos, st, joff, disk, delivered, lowWater, diskLow, ended>>
 
 MaxSaved == IF \A s \in Streams : joff[s] = 0 THEN 0 ELSE CHOOSE m \in {joff[s] : s \in Streams} : \A s \in Streams : joff[s] <= m
 
@@ -72,7 +78,7 @@ Read == /\ up /\ pos < written
               /\ joff' = IF ~M_CommitAfterAck /\ ~skip THEN [joff EXCEPT ![strm[l]] = l] ELSE joff
               /\ disk' = IF ~M_CommitAfterAck /\ ~skip /\ SyncMode THEN [disk EXCEPT ![strm[l]] = l] ELSE disk
         /\ pos' = pos + 1
-        /\ UNCHANGED <<strm, written, up, run, delivered, lowWater, diskLow, hist>>
+        /\ UNCHANGED <<strm, written, up, run, delivered, lowWater, diskLow, hist, ended>>
 
 EarlierSameStream(l) == {k \in Lines : k < l /\ strm[k] = strm[l]}
 
@@ -80,14 +86,14 @@ ActDone(l) == /\ up /\ st[l] = "proc"
               /\ \A k \in EarlierSameStream(l) : st[k] \notin {"proc"}
               /\ st' = [st EXCEPT ![l] = "out"]
               /\ H(<<"act", l>>)
-              /\ UNCHANGED <<strm, written, up, run, pos, joff, disk, delivered, lowWater, diskLow>>
+              /\ UNCHANGED <<strm, written, up, run, pos, joff, disk, delivered, lowWater, diskLow, ended>>
 
 Deliver(l) == /\ up /\ st[l] = "out"
               /\ \A k \in EarlierSameStream(l) : st[k] \notin {"proc", "out"}
               /\ st' = [st EXCEPT ![l] = "acked"]
               /\ delivered' = [delivered EXCEPT ![l] = @ + 1]
               /\ H(<<"deliver", l>>)
-              /\ UNCHANGED <<strm, written, up, run, pos, joff, disk, lowWater, diskLow>>
+              /\ UNCHANGED <<strm, written, up, run, pos, joff, disk, lowWater, diskLow, ended>>
 
 \* first line that is not known to be delivered (repaired rule): all lines below it are committed / skipped
 NewLow(s2) == IF \E l \in Lines : s2[l] \notin {"committed", "skipped"} /\ l <= pos
@@ -104,19 +110,26 @@ Commit(l) == /\ up /\ st[l] = "acked"
                    /\ disk' = IF SyncMode THEN j2 ELSE disk
                    /\ diskLow' = IF SyncMode THEN lw ELSE diskLow
              /\ H(<<"commit", l>>)
-             /\ UNCHANGED <<strm, written, up, run, pos, delivered>>
+             /\ UNCHANGED <<strm, written, up, run, pos, delivered, ended>>
 
 SaveAsync == /\ up /\ ~SyncMode /\ (disk # joff \/ diskLow # lowWater)
              /\ disk' = joff /\ diskLow' = lowWater
              /\ H(<<"save", 0>>)
-             /\ UNCHANGED <<strm, written, up, run, pos, st, joff, delivered, lowWater>>
+             /\ UNCHANGED <<strm, written, up, run, pos, st, joff, delivered, lowWater, ended>>
 
 StreamSeen(s) == \E l \in Lines : l <= pos /\ strm[l] = s
 Kill == /\ up /\ run = 1
         /\ (ResidualOnly => \A s \in Streams : StreamSeen(s) => disk[s] # 0)
-        /\ up' = FALSE
+        /\ up' = FALSE /\ ended' = "kill"
         /\ H(<<"kill", 0>>)
         /\ UNCHANGED <<strm, written, run, pos, st, joff, disk, delivered, lowWater, diskLow>>
+
+Stop == /\ GracefulStop /\ up /\ run = 1
+        /\ (ResidualOnly => \A s \in Streams : StreamSeen(s) => joff[s] # 0)
+        /\ up' = FALSE /\ ended' = "stop"
+        /\ disk' = (IF M_StopSaves THEN joff ELSE disk) /\ diskLow' = (IF M_StopSaves THEN lowWater ELSE diskLow)
+        /\ H(<<"stop", 0>>)
+        /\ UNCHANGED <<strm, written, run, pos, st, joff, delivered, lowWater>>
 
 MinSaved == LET saved == {disk[s] : s \in {x \in Streams : disk[x] # 0}}
             IN IF saved = {} THEN 0
@@ -130,9 +143,9 @@ Restart == /\ ~up /\ run = 1
            /\ lowWater' = diskLow
            /\ st' = [l \in Lines |-> "unread"]
            /\ H(<<"restart", 0>>)
-           /\ UNCHANGED <<strm, written, disk, delivered, diskLow>>
+           /\ UNCHANGED <<strm, written, disk, delivered, diskLow, ended>>
 
-Next == Append1 \/ Read \/ SaveAsync \/ Kill \/ Restart \/ \E l \in Lines : ActDone(l) \/ Deliver(l) \/ Commit(l)
+Next == Append1 \/ Read \/ SaveAsync \/ Kill \/ Stop \/ Restart \/ \E l \in Lines : ActDone(l) \/ Deliver(l) \/ Commit(l)
 Spec == Init /\ [][Next]_vars
 
 -----------------------------------------------------------------------------
@@ -141,6 +154,9 @@ AtLeastOnce == (run = 2 /\ Quiet /\ written = NLines) => \A l \in Lines : delive
 \* the offsets file never claims more than was committed; committed never more than was delivered
 NeverAheadOnDisk == \A s \in Streams : disk[s] <= joff[s] \/ ~up
 CommittedWasDelivered == M_CommitAfterAck => \A s \in Streams : joff[s] # 0 => delivered[joff[s]] >= 1
+\* after a graceful stop the offsets file holds exactly what was committed (nothing acknowledged is delivered again for
+\* want of a save)
+CleanStopSavesAll == (~up /\ ended = "stop") => disk = joff
 TypeOK == pos \in 0..NLines /\ written \in 0..NLines
 
 (* export of complete kill/restart histories for replay on the real input (simulation mode) *)
